@@ -262,6 +262,13 @@ def run_reject(case):
     saved = MSG.DBusMessage._nextSerial
     try:
         if case['kind'] == 'name':
+            if not case['valid'] and R.is_bus_name(case['value']):
+                # the same string in a role where it IS legal, first (an invalid interface name can be a fine destination):
+                # what is refused in one role stays refused whatever was built before
+                try:
+                    MSG.MethodReturnMessage(7, destination=case['value'])
+                except Exception:
+                    pass
             msg['fields'][case['arg']] = case['value']
             try:
                 S.build_txdbus_message(MSG, msg)
